@@ -594,6 +594,39 @@ func (ctx *checkCtx) writeEvidence() {
 	if len(samples) == 0 {
 		samples = append(samples, "no obligations generated")
 	}
+	// block coverage of the encoded repository functions, over all jobs of this check
+	agg := map[string]*BlockCov{}
+	for _, jr := range ctx.jobs {
+		for name, bc := range jr.Blocks {
+			a := agg[name]
+			if a == nil {
+				a = &BlockCov{Total: bc.Total, Seen: make([]bool, bc.Total), Pos: bc.Pos}
+				agg[name] = a
+			}
+			for i, s := range bc.Seen {
+				if s && i < len(a.Seen) {
+					a.Seen[i] = true
+				}
+			}
+		}
+	}
+	blockCov := map[string]string{}
+	var unvisited []string
+	totalBlocks, seenBlocks := 0, 0
+	for name, a := range agg {
+		n := 0
+		for i, s := range a.Seen {
+			if s {
+				n++
+			} else {
+				unvisited = append(unvisited, fmt.Sprintf("%s block %d (%s)", name, i, a.Pos[i]))
+			}
+		}
+		totalBlocks += a.Total
+		seenBlocks += n
+		blockCov[name] = fmt.Sprintf("%d/%d", n, a.Total)
+	}
+	sort.Strings(unvisited)
 	for o := range b1over {
 		b1agg.Over = append(b1agg.Over, o)
 	}
@@ -631,6 +664,13 @@ func (ctx *checkCtx) writeEvidence() {
 				"max_result_bits": b1agg.MaxBits,
 				"unbounded_ops":   b1agg.Unknown,
 				"over_2^53":       b1agg.Over,
+			},
+			"ssa_block_coverage": map[string]interface{}{
+				"what":             "SSA basic blocks of the encoded repository functions reached by at least one symbolic path of this check (reached = executed under a path condition not syntactically false); unvisited blocks are code this check says nothing about",
+				"blocks_reached":   seenBlocks,
+				"blocks_total":     totalBlocks,
+				"per_function":     blockCov,
+				"unvisited_blocks": unvisited,
 			},
 			"exhaustive": false,
 		},
